@@ -192,6 +192,83 @@ def writer_check(ctx, n):
     return len(items)
 
 
+def describe_pe(path):
+    """Description of a PE file as reported by llvm-readobj (independent of goblin): machine,
+    image base, entry RVA, the header bytes, sections with their raw data, named exports."""
+    with open(path, "rb") as f:
+        blob = f.read()
+    p = subprocess.run(["llvm-readobj", "--file-headers", "--sections", "--coff-exports", path],
+                       stdout=subprocess.PIPE, stderr=subprocess.PIPE, text=True)
+    if p.returncode != 0:
+        raise core.ToolError("llvm-readobj failed on %s: %s" % (path, p.stderr[:300]))
+    d = {"sections": [], "exports": []}
+    cur, mode = None, None
+    for line in p.stdout.splitlines():
+        t = line.strip()
+        if t.startswith("Section {"):
+            cur, mode = {"perm": [False, False, False]}, "sec"
+        elif t.startswith("Export {"):
+            cur, mode = {}, "exp"
+        elif t == "}" and mode:
+            if mode == "sec":
+                off, raw = cur.pop("off"), cur["rawsize"]
+                cur["bytes"] = list(blob[off:off + raw])
+                d["sections"].append(cur)
+            elif cur.get("name") or any(cur.get("rva", [0])):
+                d["exports"].append(cur)
+            cur, mode = None, None
+        elif ":" in t:
+            k, _, v = t.partition(":")
+            k, v = k.strip(), v.strip()
+            num = lambda x: int(x.split()[0], 16) if x.split()[0].startswith("0x") else int(x.split()[0])
+            if mode == "sec":
+                if k == "VirtualSize":
+                    cur["vsize"] = num(v)
+                elif k == "VirtualAddress":
+                    cur["rva"] = limbs(num(v))
+                elif k == "RawDataSize":
+                    cur["rawsize"] = num(v)
+                elif k == "PointerToRawData":
+                    cur["off"] = num(v)
+            elif mode == "exp":
+                if k == "Name":
+                    cur["name"] = v
+                elif k == "RVA":
+                    cur["rva"] = limbs(num(v))
+            else:
+                if k == "Machine":
+                    d["machine"] = int(v.split("(")[1].rstrip(")"), 16)
+                elif k == "AddressOfEntryPoint":
+                    d["entry"] = limbs(num(v))
+                elif k == "ImageBase":
+                    d["image_base"] = limbs(num(v))
+                elif k == "SizeOfHeaders":
+                    d["hdr"] = list(blob[:num(v)])
+        elif mode == "sec":
+            if "IMAGE_SCN_MEM_READ" in t:
+                cur["perm"][0] = True
+            elif "IMAGE_SCN_MEM_WRITE" in t:
+                cur["perm"][1] = True
+            elif "IMAGE_SCN_MEM_EXECUTE" in t:
+                cur["perm"][2] = True
+    return d
+
+
+def pe_list(ctx):
+    items = []
+    for fn in sorted(os.listdir(CORPUS)):
+        if fn.endswith(".exe") or fn.endswith(".dll"):
+            d = describe_pe(os.path.join(CORPUS, fn))
+            # prog-r4000.exe is x86 code under a MIPS machine number: not lifted
+            items.append({"path": os.path.relpath(os.path.join(CORPUS, fn), core.ROOT), "pdesc": d, "lift": d["machine"] != 0x166})
+    if len(items) < 5:
+        raise core.ToolError("corpus/c19 has no PE files")
+    lp = os.path.join(ctx.work, "pe.json")
+    with open(lp, "w") as f:
+        json.dump(items, f)
+    return lp, len(items)
+
+
 def corpus_list(ctx):
     items = []
     for fn in sorted(os.listdir(CORPUS)):
@@ -291,8 +368,11 @@ def run(ctx):
     q = ctx.quick
     writer_check(ctx, 16 if q else 120)
     lp, nfiles = corpus_list(ctx)
+    pl, npe = pe_list(ctx)
     ctx.extra["real_files"] = nfiles
+    ctx.extra["real_pe_files"] = npe
     jobs = [
+        ("c19", ["--mode", "pe", "--list", pl, "--root", core.ROOT], "pe.ndjson"),
         ("c19", ["--mode", "random", "--n", 60 if q else 3000], "random.ndjson"),
         ("c19", ["--mode", "enum", "--maxsz", 1 if q else 3], "enum.ndjson"),
         ("c19", ["--mode", "files", "--list", lp], "files.ndjson"),
@@ -343,7 +423,9 @@ def selftest(ctx):
     p2 = ctx.record("c19", ["--mode", "link", "--n", 6, "--dir", os.path.join(ctx.work, "st-link")], "selftest-link.ndjson")
     p3 = ctx.record("c19", ["--mode", "code", "--n", 7], "selftest-code.ndjson")
     p4 = ctx.record("c19", ["--mode", "json", "--n", 12, "--dir", os.path.join(ctx.work, "st-json")], "selftest-json.ndjson")
-    evs = ctx.read_ndjson(p) + ctx.read_ndjson(p2) + ctx.read_ndjson(p3) + ctx.read_ndjson(p4)
+    pl, _ = pe_list(ctx)
+    p5 = ctx.record("c19", ["--mode", "pe", "--list", pl, "--root", core.ROOT], "selftest-pe.ndjson")
+    evs = ctx.read_ndjson(p) + ctx.read_ndjson(p2) + ctx.read_ndjson(p3) + ctx.read_ndjson(p4) + ctx.read_ndjson(p5)
     base_path = p + ".all"
     with open(base_path, "w") as f:
         for e in evs:
